@@ -404,7 +404,19 @@ func (fr *frame) step(instr ssa.Instruction) bool {
 	case *ssa.Next:
 		fr.env[in] = r.next(fr.get(in.Iter), in)
 	case *ssa.FieldAddr:
-		p := fr.get(in.X).(Pointer)
+		p, isPtr := fr.get(in.X).(Pointer)
+		if !isPtr {
+			if h, isHost := fr.get(in.X).(Host); isHost {
+				// address of an embedded struct of a native object (promoted method call such as
+				// (*types.TypeName).Pkg via the embedded object): the native method is reachable on the outer value
+				st := in.X.Type().Underlying().(*types.Pointer).Elem().Underlying().(*types.Struct)
+				if st.Field(in.Field).Embedded() {
+					fr.env[in] = h
+					break
+				}
+			}
+			panic(unsupported("field access on %T in %s (%s)", fr.get(in.X), fr.fn, r.Pos(in.Pos())))
+		}
 		if p.Slot == nil {
 			panic(fr.tpanic("nil-deref", "field address of nil pointer", in.Pos()))
 		}
